@@ -28,7 +28,7 @@ SPEC = dict(
                 "and end to end for union/subtract; for intersect/reversed_subtract end to end only over a complete finite domain (bounded). "
                 "The model is tied to the code on every run: the Rust harness drives the real "
                 "IntSet/RangeSet through the public API (bounded-exhaustive short sequences over the page-edge-rich 11-value domain, random "
-                "long sequences over u32/u16/u8 and custom domains) and coqc evaluates the model on the same sequences, comparing a full "
+                "long sequences over every Domain impl of read-fonts - u32/u16/u8/GlyphId16/NameId/GlyphId/Tag, each with its own boundary values min, max-1, max - and custom domains; the list of `impl Domain` in the source is audited against the driven list) and coqc evaluates the model on the same sequences, comparing a full "
                 "observation vector (len, contains, first/last, iter forward/backward/after, ranges, excluded ranges, intersects_range/set, "
                 "==, cmp, returned bools); an independent BTreeSet shadow checks the same observations, hash agreement and "
                 "discontinuous domains on the implementation alone. Sparse-bit-set codec: see the Sbs theorems."),
@@ -42,7 +42,7 @@ SPEC = dict(
     modelled=["read-fonts/src/collections/int_set/{sparse_bit_set.rs, input_bit_stream.rs, output_bit_stream.rs}: decoder (BFS, filled nodes, bias/max, early break, skip_nodes), encoder per branch factor, to_sparse_bit_set, bit streams; plus an independent transcription of the IFT specification's decoding algorithm (spec_decode)",
               "read-fonts/src/collections/int_set/bitpage.rs: BitPage insert/remove/contains/insert_range/remove_range/len/iter/iter_after/iter_ranges, union/intersect/subtract (as one 512-bit integer)",
               "read-fonts/src/collections/int_set/bitset.rs: BitSet insert/remove/insert_range/remove_range/remove_all/extend/extend_unsorted/contains/len/clear/iter/iter_after/iter_ranges/process(union,intersect,subtract,reversed_subtract)/Eq/Ord (sorted major->page list + cached length)",
-              "read-fonts/src/collections/int_set/mod.rs: Membership, IntSet insert/remove/insert_range/remove_range/extend/extend_unsorted/remove_all/union/intersect/subtract/invert/clear/contains/len/is_empty/iter/iter_after/iter_ranges/iter_excluded_ranges/first/last/intersects_range/intersects_set/Eq/Ord/is_inverted for continuous domains",
+              "read-fonts/src/collections/int_set/mod.rs: Membership, IntSet insert/remove/insert_range/remove_range/extend/extend_unsorted/remove_all/union/intersect/subtract/invert/clear/contains/len/is_empty/iter/iter_after/iter_ranges/iter_excluded_ranges/first/last/intersects_range/intersects_set/Eq/Ord/is_inverted for continuous domains (all seven Domain impls: u32, u16, u8, GlyphId16, NameId, GlyphId, Tag - the case carries dmax)",
               "read-fonts/src/collections/range_set.rs: RangeSet insert/extend/FromIterator/iter/intersection, OrdAdjacency for u32/u16",
               "read-fonts/src/collections/int_set/bitset.rs (L0): process (steps 1-4), compact, compact_pages, resize, passthrough_behavior over (pages, page_map) — coq/C14/SetL0.v"],
     not_covered=[
